@@ -1,7 +1,7 @@
 """C03 - phase equilibrium never creates, destroys or makes negative any material."""
 import random
 
-from harness import tlc
+from harness import par, tlc
 from harness.drivers import phaseeq as dp
 
 ASSUME = [
@@ -21,7 +21,8 @@ def key_of(step, clause):
     return 'PhaseEq:%s:%s:%s' % (step['op'], extra, clause)
 
 
-def history(rng, k, n_steps):
+def history(seed, k, n_steps):
+    rng = random.Random(seed)
     w = dp.World()
     w.feed(rng)
     init = w.project()
@@ -54,7 +55,7 @@ def run(ctx):
     elif not r.ok:
         raise tlc.MachineryError(r.out[-3000:])
     ctx.note('MC PhaseEq: %d distinct states, %d transitions' % (r.distinct, r.generated))
-    traces = [history(rng, k, 8) for k in range(160 if quick else 4000)]
+    traces = par.pmap(history, [('%d:%d' % (ctx.seed, k), k, 8) for k in range(160 if quick else 4000)])
     defs, cfgc = dp.tla_constants()
     stats = dict(ok=0, raised=0, ops={})
     todo, n_traces = traces, 0
